@@ -29,7 +29,7 @@ ASSUMPTIONS = [
     "macros are not generated (their lines have no rule in the documented format)",
     "string contents are tier A (see C04): what a parser does with odd strings is not this property's subject",
 ]
-BUDGET = {"quick": {"examples": 2400}, "thorough": {"examples": 200000, "deadline_s": 1500}}
+BUDGET = {"quick": {"examples": 2400}, "thorough": {"examples": 200000, "deadline_s": 900}}
 
 CFG = gen.cfg(max_syms=10, p_macro=0, p_choice_name=0, p_menu=22, p_if=18, p_choice=14, p_comment=14, p_help=45, p_source=10, p_env=0)
 CANON = style(indent=4, mainmenu_indent=True, nest_indent=True, blank_between=True, cont_levels=1)
